@@ -126,6 +126,14 @@ class App(object):
         self.ws = None
         self.sock_fn = None
 
+    def observe(self, ev):
+        """Keep the (name, nth) / attempt counters in step for an event the
+        application does not react to."""
+        if ev.name == 'connecting':
+            self.counts = {}
+            self.attempt += 1
+        self.counts[ev.name] = self.counts.get(ev.name, 0) + 1
+
     def react(self, ev):
         if ev.name == 'connecting':
             # (name, nth) rules count per connection attempt
